@@ -15,6 +15,9 @@ ruamel.yaml / PyYAML / fastjsonschema and are decided only by the exhaustive enu
 -/
 import SpsdkVerif.Model.ConfigArea
 import SpsdkVerif.Proofs.ConfigArea
+import SpsdkVerif.Proofs.ConfigAreaCfg
+import SpsdkVerif.Proofs.RegistersCfg
+import SpsdkVerif.Properties.C11
 import SpsdkVerif.Generated.RegLayouts
 import SpsdkVerif.Generated.RegDetails
 import SpsdkVerif.Generated.PfrFuns
@@ -460,6 +463,11 @@ theorem tz_roundtrip (ws : List Nat) (tail : Bytes) (h : ∀ w ∈ ws, w < 2 ^ 3
     ∃ b, tzExport ws = .ok b ∧ b.length = 4 * ws.length ∧ tzParse ws.length (b ++ tail) = .ok ws :=
   tz_roundtrip' ws tail h
 
+/-- the model packs little-endian unsigned 32-bit words because the SOURCE does: `struct.pack(f"<{n}I")` / `struct.unpack(f"<{n}L")`
+    (both are 4-byte unsigned with the standard-size prefix `<`) -/
+theorem gen_tz_struct_formats :
+    Generated.RegLayouts.tzPackFormat = ("<", "I") ∧ Generated.RegLayouts.tzUnpackFormat = ("<", "L") := by decide
+
 theorem tz_short_binary_refused (n : Nat) (b : Bytes) (h : b.length < 4 * n) : tzParse n b = .error .spsdk := by
   have : n > b.length / 4 := by omega
   simp [tzParse, this]
@@ -592,6 +600,136 @@ theorem gen_bca_fcf_table :
     the option words are visible 32-bit words at offsets 0, 4, 8, … -/
 theorem gen_memcfg_table :
     (layoutsD.filter (fun ld => ld.1.kind == 9)).all (fun ld => memcfgTableB ld.1 ld.2) = true := by decide +kernel
+
+/-! ## configuration level: `get_config` → `load_from_config` (on top of the C11 configuration theorems) -/
+
+/-- a well-formed register with its details is a well-formed C11 register -/
+theorem toReg_wf (r : RegL) (rd : RegD) (v : Nat) (wf : RegWF r) (hv : v < 2 ^ r.width) : C11.RegWF (toReg r rd v) := by
+  refine ⟨rfl, rfl, hv, ?_, ?_⟩
+  · intro f hf
+    simp only [toReg] at hf
+    obtain ⟨k, hk, rfl⟩ := List.mem_iff_getElem.1 hf
+    simp only [List.getElem_zipWith, toField]
+    exact wf.fieldsIn _ (List.getElem_mem _)
+  · simp only [toReg]
+    have : ∀ (fs : List BF) (fds : List FieldD), fs.Pairwise FieldDisj →
+        (List.zipWith toField fs fds).Pairwise C11.FieldsDisjoint := by
+      intro fs
+      induction fs with
+      | nil => intro fds _; simp
+      | cons f fs ih =>
+        intro fds hp
+        cases fds with
+        | nil => simp
+        | cons fd fds =>
+          rw [List.pairwise_cons] at hp
+          simp only [List.zipWith_cons_cons, List.pairwise_cons]
+          refine ⟨?_, ih fds hp.2⟩
+          intro g hg
+          obtain ⟨k, hk, rfl⟩ := List.mem_iff_getElem.1 hg
+          simp only [List.getElem_zipWith, toField, C11.FieldsDisjoint]
+          exact hp.1 _ (List.getElem_mem _)
+    exact this _ _ wf.fieldsDisj
+
+theorem stateOK_get {l : Layout} {vals : Vals} {i : Nat} {r : RegL} {v : Nat} (hs : StateOK l vals)
+    (hr : l.regs[i]? = some r) (hv : vals[i]? = some v) : v < 2 ^ r.width := by
+  have := rv_pick hs hr
+  simpa [List.getD_eq_getElem?_getD, hv] using this
+
+/-- **Configuration round trip, index level.**  For a well-formed layout without byte-reversed registers: the configuration
+    taken from state `vals` (`get_config`) loads (`load_yml_config`) into an object in state `init` - e.g. a freshly constructed
+    one - and afterwards every register holds its value of `vals`, provided `init` agrees with `vals` on the bits a configuration
+    does not carry (bits no bit-field covers; hidden bit-fields that hold their reset value). -/
+theorem area_config_roundtrip_idx (l : Layout) (d : LayoutD) (vals init : Vals)
+    (ha : Aligned3 l.regs d.regs vals) (hai : Aligned3 l.regs d.regs init)
+    (wf : ∀ r ∈ l.regs, RegWF r) (hs : StateOK l vals) (hs0 : StateOK l init)
+    (hrest : ∀ (i : Nat) (r : RegL) (rd : RegD) (v v0 : Nat), l.regs[i]? = some r → d.regs[i]? = some rd → vals[i]? = some v → init[i]? = some v0 →
+      ∀ k, ¬ Regs.Carried (toRegMeta rd) (toReg r rd v) k → v0.testBit k = v.testBit k) :
+    ∃ cfg rf', Regs.getConfig (toMeta d) (toFile l d vals) = .ok cfg ∧
+      Regs.loadConfig (toMeta d) (toFile l d init) cfg = .ok rf' ∧ valuesOf rf' = vals := by
+  have hmeta : ∀ i rd, d.regs[i]? = some rd → (toMeta d).reg i = toRegMeta rd := by
+    intro i rd h
+    simp [Regs.Meta.reg, toMeta, List.getD_eq_getElem?_getD, List.getElem?_map, h]
+  have hlen : (toFile l d init).length = (toFile l d vals).length := by
+    simp only [toFile]; rw [toFileFrom_length hai, toFileFrom_length ha]
+  obtain ⟨cfg, rf', h1, h2, h3, h4⟩ := C11.config_roundtrip (toMeta d) (toFile l d vals) (toFile l d init) hlen (by
+    intro i x x0 hx hx0
+    obtain ⟨r, rd, v, hr, hrd, hv, rfl⟩ := pick3 ha hx
+    obtain ⟨r', rd', v0, hr', hrd', hv0, rfl⟩ := pick3 hai hx0
+    rw [hr] at hr'; cases hr'
+    rw [hrd] at hrd'; cases hrd'
+    have hw := wf r (List.mem_of_getElem? hr)
+    refine ⟨⟨rfl, rfl, rfl, rfl, rfl, rfl, rfl⟩, .plain (toReg_wf r rd v hw (stateOK_get hs hr hv)),
+      .plain (toReg_wf r rd v0 hw (stateOK_get hs0 hr hv0)), ?_⟩
+    intro hne; exact absurd rfl hne)
+  refine ⟨cfg, rf', h1, h2, ?_⟩
+  have hl : (toFile l d vals).length = l.regs.length := toFileFrom_length ha
+  apply List.ext_getElem?
+  intro i
+  simp only [valuesOf, List.getElem?_map]
+  cases hvi : vals[i]? with
+  | none =>
+    have : rf'.length ≤ i := by
+      rw [h3, hl, ← (aligned3_lengths ha).2]; exact List.getElem?_eq_none_iff.1 hvi
+    simp [List.getElem?_eq_none this]
+  | some v =>
+    have hi : i < l.regs.length := by rw [← (aligned3_lengths ha).2]; exact (List.getElem?_eq_some_iff.1 hvi).1
+    obtain ⟨r, hr⟩ : ∃ r, l.regs[i]? = some r := ⟨_, List.getElem?_eq_getElem hi⟩
+    obtain ⟨rd, hrd⟩ : ∃ rd, d.regs[i]? = some rd := ⟨_, List.getElem?_eq_getElem (by rw [(aligned3_lengths ha).1]; exact hi)⟩
+    obtain ⟨v0, hv0⟩ : ∃ v0, init[i]? = some v0 := ⟨_, List.getElem?_eq_getElem (by rw [(aligned3_lengths hai).2]; exact hi)⟩
+    have hx : (toFile l d vals)[i]? = some (toReg r rd v) := by
+      simp only [toFile]; rw [toFileFrom_getElem? i ha, hr, hrd, hvi]
+    have hx0 : (toFile l d init)[i]? = some (toReg r rd v0) := by
+      simp only [toFile]; rw [toFileFrom_getElem? i hai, hr, hrd, hv0]
+    obtain ⟨r', hr', hrt⟩ := h4 i _ _ hx hx0
+    rw [hmeta i rd hrd] at hrt
+    have hw := wf r (List.mem_of_getElem? hr)
+    have hok : C11.RegOK (toRegMeta rd) (toReg r rd v) (toReg r rd v0) :=
+      ⟨⟨rfl, rfl, rfl, rfl, rfl, rfl, rfl⟩, .plain (toReg_wf r rd v hw (stateOK_get hs hr hvi)),
+        .plain (toReg_wf r rd v0 hw (stateOK_get hs0 hr hv0)), fun hne => absurd rfl hne⟩
+    have := (C11.config_roundtrip_same_state (toRegMeta rd) _ _ r' hrt hok (hrest i r rd v v0 hr hrd hvi hv0)).1 true
+    have hp' : r'.subW = 0 ∧ r'.reverse = false := by
+      cases hrt with
+      | whole _ _ => exact ⟨rfl, rfl⟩
+      | group hne => exact absurd rfl hne
+      | fields x _ _ _ _ => exact ⟨rfl, rfl⟩
+    rw [Regs.getAlt_plain r' _ true hp'.1 hp'.2, Regs.getAlt_plain (toReg r rd v) _ true rfl rfl] at this
+    simp only [Except.ok.injEq] at this
+    simp [hr', this, toReg]
+
+
+/-- **Configuration round trip** (`load_from_config(get_config(x))`), for every well-formed layout without byte-reversed
+    registers whose names resolve (`findRegB`, `fieldNamesB`: kernel-checked for the generated tables): the dictionary
+    `get_config` hands out, keyed by register and bit-field NAMES, is resolved by `find_reg` / `find_bitfield` to the registers
+    it was taken from, loads into a fresh object, restores every value, and the fresh object then exports the same binary. -/
+theorem area_config_roundtrip (l : Layout) (d : LayoutD) (vals : Vals)
+    (ha : alignedB l d = true) (hlen : vals.length = l.regs.length) (wf : LayoutWF l)
+    (hf : findRegB d = true) (hn : fieldNamesB d = true) (hs : StateOK l vals) (hs0 : StateOK l d.initVals)
+    (hrest : ∀ (i : Nat) (r : RegL) (rd : RegD) (v : Nat), l.regs[i]? = some r → d.regs[i]? = some rd → vals[i]? = some v →
+      ∀ k, ¬ Regs.Carried (toRegMeta rd) (toReg r rd v) k → rd.init.testBit k = v.testBit k) :
+    ∃ cfg n rf', Regs.getConfig (toMeta d) (toFile l d vals) = .ok cfg ∧
+      nameCfg d cfg = some n ∧ resolveCfg d n = some cfg ∧
+      Regs.loadConfig (toMeta d) (toFile l d d.initVals) cfg = .ok rf' ∧ valuesOf rf' = vals ∧
+      exportArea l (valuesOf rf') = exportArea l vals := by
+  simp only [alignedB, Bool.and_eq_true] at ha
+  have h3 : Aligned3 l.regs d.regs vals := aligned3_of_alignedB ha.1 hlen
+  have hdl : d.regs.length = l.regs.length := (aligned3_lengths h3).1
+  have h30 : Aligned3 l.regs d.regs d.initVals := aligned3_of_alignedB ha.1 (by simp [LayoutD.initVals, hdl])
+  obtain ⟨cfg, rf', h1, h2, h4⟩ := area_config_roundtrip_idx l d vals d.initVals h3 h30 wf.regs hs hs0 (by
+    intro i r rd v v0 hr hrd hv hv0 k hk
+    have : v0 = rd.init := by
+      simp only [LayoutD.initVals, List.getElem?_map, hrd, Option.map_some, Option.some.injEq] at hv0
+      exact hv0.symm
+    rw [this]; exact hrest i r rd v hr hrd hv k hk)
+  obtain ⟨n, hn1, hn2⟩ := names_resolve d (toFile l d vals) cfg hf hn (by simp only [toFile]; rw [toFileFrom_length h3, hdl]) (by
+    intro i x rd hx hrd
+    obtain ⟨r, rd', v, hr, hrd', _, rfl⟩ := pick3 h3 hx
+    rw [hrd] at hrd'; cases hrd'
+    have hfl : r.fields.length = rd.fields.length := by
+      have := rv3_fields h3 hr hrd
+      exact this
+    simp [toReg, hfl]) h1
+  exact ⟨cfg, n, rf', h1, hn1, hn2, h2, h4, by rw [h4]⟩
 
 /-! ## the database: every (family, revision, area) row uses one of the generated layouts, hence … -/
 
